@@ -45,15 +45,19 @@ ASSUMPTIONS = [
     "the DATETIME string syntax and the date parser plug-in are observed only for well-formed full-precision strings",
 ]
 SHARDS = {"quick": 4, "thorough": 16}
-BUDGET_S = {"quick": 80, "thorough": 700}
+BUDGET_S = {"quick": 80, "thorough": 800}
 FLOORS = {
     "quick": {"exhaustive.split_ranges": 263168, "exhaustive.tiered_ranges": 2405448, "exhaustive.codec8": 512,
-              "range.searched": 1500, "range.nontrivial": 500, "codec.values": 2000, "sort.checked": 60,
-              "ood.index": 60, "ood.query": 60},
+              "range.searched": 4500, "range.nontrivial": 3000, "range.path.parser": 900, "point.searched": 700,
+              "tiered.sampled": 1500, "codec.values": 5000, "sort.checked": 300, "ood.index": 1200, "ood.query": 1100,
+              "cfg.int": 90, "cfg.float": 40, "cfg.decimal": 25, "cfg.datetime": 25, "cfg.multivalued": 30,
+              "range.zero_sign_relaxed": 3},
     "thorough": {"exhaustive.split_ranges": 263168, "exhaustive.tiered_ranges": 2405448, "exhaustive.codec8": 512,
                  "exhaustive.searched": 1069088,
-                 "range.searched": 15000, "range.nontrivial": 5000, "codec.values": 20000, "sort.checked": 600,
-                 "ood.index": 600, "ood.query": 600},
+                 "range.searched": 50000, "range.nontrivial": 36000, "range.path.parser": 10000, "point.searched": 8000,
+                 "tiered.sampled": 18000, "codec.values": 58000, "sort.checked": 3400, "ood.index": 14000, "ood.query": 12900,
+                 "cfg.int": 1000, "cfg.float": 400, "cfg.decimal": 280, "cfg.datetime": 280, "cfg.multivalued": 400,
+                 "range.zero_sign_relaxed": 50},
 }
 
 
@@ -754,8 +758,11 @@ def sampled_case(ctx, rng, idx):
             ctx.fail("domain", "to_bytes(%s,%s):accepted" % (_ck(cfg), label), bw, "bytes %r decode to %r" % (b, field.from_bytes(b)))
         except Exception:  # noqa - any rejection is a rejection
             pass
-        if field.is_valid(bad):
-            ctx.fail("domain", "is_valid(%s,%s):true" % (_ck(cfg), label), bw)
+        try:
+            if field.is_valid(bad):
+                ctx.fail("domain", "is_valid(%s,%s):true" % (_ck(cfg), label), bw)
+        except Exception as e:  # noqa - is_valid answers with a bool
+            ctx.fail("domain", "is_valid(%s,%s):exc:%s@%s" % (_ck(cfg), label, type(e).__name__, _wsite(e)), bw, repr(e))
         wr = ix.writer()
         try:
             wr.add_document(id=1000, n=bad)
@@ -867,7 +874,7 @@ def run(ctx):
         exhaustive_searched(ctx)
     if ctx.replay_idx is not None and ctx.replay_idx < 0:
         return
-    for idx in ctx.cases(quick=150, thorough=600):
+    for idx in ctx.cases(quick=150, thorough=400):
         rng = ctx.rng(idx)
         ctx.reseed_global(idx)
         shape, nontrivial, w = sampled_case(ctx, rng, idx)
